@@ -30,7 +30,7 @@ def tid(n):
 
 class C19(Prop):
     id = 'C19'
-    budgets = {'quick': 3000, 'thorough': 40000}
+    budgets = {'quick': 3000, 'thorough': 30000}
     rule = ('random suite trees (depth 0-4, fan-out 0-4) over plain TestSuite / subclass / subclass with sort_tests / '
             'subclass with filter_by_ids / PlaceHolder cases, ids unique or duplicated, id subsets incl. absent ids; '
             'thorough adds every tree with <= 5 nodes x 3 id patterns x 4 id subsets. non-trivial = at least 2 leaves '
@@ -127,6 +127,26 @@ class C19(Prop):
             finally:
                 os.unlink(fh.name)
             loaded = [int(x[1:]) for x in self.LOG]
+            # the same two commands with the suite reaching TestProgram unwrapped (a module whose load_tests hook returns it, no
+            # test names on the command line) must list and run the same tests - also when the root is a bare test or a suite
+            # whose own filter_by_ids returns a new suite
+            for flag in (('--list', '--load-list') if (len(ids) + sum(ids)) % 2 == 0 or len(str(tree)) < 60 else ()):   # (half of the larger cases: run time)
+                root3 = self.build(tree)
+                mod2 = types.ModuleType('verif_c19_mod2')
+                mod2.load_tests = lambda loader, tests, pattern, _r=root3: _r
+                with tempfile.NamedTemporaryFile('w', suffix='.list', delete=False) as fh:
+                    fh.write(''.join(x + '\n' for x in sorted(idset)))
+                out = io.StringIO()
+                del self.LOG[:]
+                try:
+                    TestProgram(module=mod2, argv=['prog', '--list'] if flag == '--list' else ['prog', '--load-list', fh.name],
+                                stdout=out, exit=False)
+                finally:
+                    os.unlink(fh.name)
+                if flag == '--list' and sorted(int(l[1:]) for l in out.getvalue().split()) != sorted(listed):
+                    return ['raised', 'list-depends-on-how-the-suite-reaches-TestProgram']
+                if flag == '--load-list' and sorted(int(x[1:]) for x in self.LOG) != sorted(loaded):
+                    return ['raised', 'load-list-depends-on-how-the-suite-reaches-TestProgram']
             return [it, fshape, fit, srt, listed, loaded]
         except Exception as e:
             return ['raised', type(e).__name__]
